@@ -433,11 +433,13 @@ def any_seq(cx: Ctx, env, depth):
 
 def _called_lambda(cx: Ctx, env, ty, depth):
     n = cx.int_(1, 3)
+    if cx.cfg.free_scalar and n == 1 and cx.chance(5):
+        n = 2
     names, tys, args = [], [], []
     e2 = env
     for i in range(n):
         nm = cx.fresh(e2)
-        if cx.cfg.free_scalar and i < n - 1 and cx.chance(3):
+        if cx.cfg.free_scalar and i < n - 1 and cx.chance(5):
             nm = "k0"  # an earlier parameter named like the query's free scalar variable (which only defaults may mention)
         while nm in names:
             nm = nm + "_"
@@ -448,7 +450,7 @@ def _called_lambda(cx: Ctx, env, ty, depth):
     for nm, t in zip(names, tys):
         e2 = bind(e2, nm, t)
     body = gen(cx, e2, ty, depth - 1)
-    if cx.cfg.keywords_in_called and tys[-1] in (I, F, B) and cx.chance(2):
+    if cx.cfg.keywords_in_called and tys[-1] in (I, F, B) and cx.chance(4 if cx.cfg.free_scalar else 2):
         # the last parameter has a default value and the call omits it
         # the default is evaluated in the ENCLOSING scope: it may mention outer variables, also ones named like a parameter
         dflt = gen(cx, env, tys[-1], 0)
